@@ -12,6 +12,7 @@ pub mod c11;
 pub mod c12;
 pub mod c13;
 pub mod c14;
+pub mod c15;
 pub mod c16;
 pub mod c18;
 pub mod c19;
@@ -36,6 +37,7 @@ pub fn dispatch(a: &Args) -> i32 {
         "C12" => c12::run(a),
         "C13" => c13::run(a),
         "C14" => c14::run(a),
+        "C15" => c15::run(a),
         "C16" => c16::run(a),
         "C18" => c18::run(a),
         "C19" => c19::run(a),
